@@ -19,7 +19,9 @@ def full_ln(m: MapType, gap: float = 150, ln_as_hit_thres: float = 100) -> MapTy
     """
 
     m = m.deepcopy()
-    df = m.stack((HitList, HoldList))._stacked
+    # Only the notes: game-specific lists such as StepMania's mines, rolls, lifts
+    # and fakes are HitList/HoldList subclasses too and must stay as they are.
+    df = m.Stacker([m.hits, m.holds])._stacked
     dfgs = (
         df.loc[:, ["offset", "column", "length"]]
         .sort_values(["offset"])
